@@ -859,6 +859,7 @@ class Manager:
 
     @m.output()
     def notify_stopped(self):
+        self._inbound.stopped()
         self._stopped.fire(None)
 
     @m.output()
